@@ -22,6 +22,7 @@ from engine.th import TH
 from spec.seq import N, NW
 
 PROPERTY = "C31"
+HISTORY_LEMMAS = ['modcounter_history']  # lemmas/History.lean: one-cycle contracts => history-level statement (Lean 4)
 LEVEL = "proof"
 ASSUMPTIONS = [
     "paper lemma (not machine-checked): the per-step counter contracts imply the history-level counts by induction on the history",
